@@ -10,6 +10,33 @@ ENGINES = [
 ]
 NA = {}
 TEXT = {
+    "C01": {
+        "engine": "rrtk-mc c01-grid-pairs + c01-extended-pairs + c01-unary-mixed-constants",
+        "technique": "exhaustive enumeration of the finite input space: all 49x49 (and 169x169 extended) ordered unit pairs x every operator form x a 12-value f32 alphabet squared, executed on the real operators under a panic guard against exponent arithmetic",
+        "text": "Depth-1 operations over a complete finite product: every ordered pair of grid units (plus an extended axis to "
+                "+-60) x 8 Quantity operator forms + 3 ordering forms + 8 bare-unit forms + equality helpers x 144 value "
+                "pairs; 48 mixed operator forms with Time/DimensionlessInteger on 169 units; all 49 named constants "
+                "against a parser of their names; PositionDerivative/Command/piece conversions over all kinds and units. "
+                "Unit part complete for the grid; values from the alphabet.",
+        "note": "A pure input-space property: no state, so exhaustive enumeration of the unit grid decides the unit clause for the grid.",
+    },
+    "C14": {
+        "engine": "rrtk-mc c14-kinematics + c14-setters + c14-conversions + c14-arithmetic",
+        "technique": "exhaustive enumeration of structured input grids (state triples x intervals incl. negative, zero and 1 ns; 49 units x 3 setters; all kind pairs for command arithmetic) on the real State/Command API against closed-form references",
+        "text": "State::update on 280 states x 8 intervals; setters on 49 units (accept iff right unit, else state bit-identical); "
+                "Command::from(State) incl. -0; all accessors/round trips; component-wise arithmetic; mixed-kind command "
+                "addition/subtraction must panic.",
+        "note": "Grid values only.",
+    },
+    "C18": {
+        "engine": "rrtk-mc c18-integer-arithmetic + c18-time-to-quantity + c18-quantity-to-time + c18-unit-conversions-and-mixed-operators",
+        "technique": "exhaustive enumeration: boundary-value pairs for the integer operators; every bit length x leading-mantissa pattern x low-bit class for i64 -> f32; every 64th f32 (thorough: EVERY finite f32 below 9e9, 2.7e9 values) for f32 -> i64; exact integer oracles",
+        "text": "Integer operators equal i64 arithmetic on 625 boundary pairs x 19 forms; Time->Quantity within 2 ulp, monotone, "
+                "round trip bound, on 63 x 2^13 x 12 (2^16 thorough) structured values covering every rounding situation "
+                "of i64->f32; Quantity->Time within one rounding + 1 ns on every 64th f32 (thorough: all of them); only "
+                "SECOND/DIMENSIONLESS convert; mixed operators equal converted Quantity operators.",
+        "note": "The thorough tier enumerates the complete f32 domain of the Quantity->Time conversion.",
+    },
     "C06": {
         "engine": "rrtk-mc c06-accessor-agreement",
         "technique": "exhaustive enumeration of a structured grid of constructor inputs (88k quick, 1.2M thorough) x a boundary-focused set of query instants, executed on the real MotionProfile with a relational (accessor-vs-accessor) oracle; boundaries recovered by bisection over all of i64",
